@@ -655,10 +655,15 @@ class Executor:
             parts = split_top(rest.replace('inbounds ', '', 1)); pty, pv = split_tv(parts[1])
             return ('gep', dest, parts[0], pty, pv, [split_tv(p) for p in parts[2:]])
         if op == 'load':
-            parts = split_top(re.sub(r'^(volatile|atomic) ', '', rest)); pty, pv = split_tv(parts[1])
+            parts = split_top(re.sub(r'^((volatile|atomic) )+', '', rest)); pty, pv = split_tv(re.sub(r' (syncscope\("[^"]*"\) )?(unordered|monotonic|acquire|release|acq_rel|seq_cst)$', '', parts[1]))
             return ('load', dest, parts[0], pty, pv)
+        if op == 'atomicrmw':
+            # single-threaded semantics: old = *p; *p = old <op> v; result old   (format: atomicrmw [volatile] <op> <ty>* <p>, <ty> <v> <ordering>)
+            mm = re.match(r'(?:volatile )?(\w+) (.*)$', rest)
+            parts = split_top(mm.group(2)); pty, pv = split_tv(parts[0]); ty, v = split_tv(re.sub(r' (syncscope\("[^"]*"\) )?(monotonic|acquire|release|acq_rel|seq_cst)$', '', parts[1]))
+            return ('atomicrmw', dest, mm.group(1), pty, pv, ty, v)
         if op == 'store':
-            parts = split_top(re.sub(r'^(volatile|atomic) ', '', rest)); ty, v = split_tv(parts[0]); pty, pv = split_tv(parts[1])
+            parts = split_top(re.sub(r'^((volatile|atomic) )+', '', rest)); ty, v = split_tv(parts[0]); pty, pv = split_tv(re.sub(r' (syncscope\("[^"]*"\) )?(unordered|monotonic|acquire|release|acq_rel|seq_cst)$', '', parts[1]))
             return ('store', ty, v, pty, pv)
         if op == 'alloca':
             parts = split_top(rest); cnt = None
@@ -838,6 +843,17 @@ class Executor:
                 elif pt[0] == 'int' and is_sym(val) and pt[1] < 8 * nb:
                     val = z3.ZeroExt(8 * nb - pt[1], val)
                 self.store(st, self.const(st, pv, pty, env), val, nb); continue
+            if k == 'atomicrmw':
+                _, dest, aop, pty, pv, ty, v = I
+                nb = m.tybytes(ty); ap = self.const(st, pv, pty, env)
+                old = self.load(st, ap, nb); val = self.const(st, v, ty, env); w = m.parse_type(ty)[1]
+                if aop == 'xchg':
+                    new = val
+                elif aop in ('add', 'sub', 'and', 'or', 'xor'):
+                    new = self.binop(aop, old, val, w)
+                else:
+                    raise Unmodelled('atomicrmw ' + aop)
+                self.store(st, ap, new, nb); env[dest] = old; continue
             if k == 'cast':
                 _, dest, op, ty1, a, ty2 = I
                 v = self.const(st, a, ty1, env)
